@@ -303,6 +303,11 @@ PARTS = [
     _compose.Part("sp_kd", lambda ctx: sp_kd.run_kd(ctx, 600, 6000), sp_kd.replay_kd, theorems=sp_kd.THEOREMS_C01, modules=sp_kd.LEAN_MODULES),
 ]
 try:
+    from . import mpr_kd
+    PARTS.append(_compose.Part("mpr_kd", mpr_kd.run_kd, mpr_kd.replay_kd, theorems=mpr_kd.THEOREMS, modules=mpr_kd.LEAN_MODULES))
+except ImportError:
+    pass
+try:
     from . import mp_parts
     PARTS += mp_parts.parts("C01")
 except ImportError:
